@@ -61,10 +61,12 @@ Definition ok_or_diag {A} (m : pres A) : Prop :=
 
 (* Oracles for Python's own parser (author code is not modelled as Python):
      py_stmt_ok code    ast.parse(code) succeeds (used for `~` statements)
-     py_stmt_errline code   when ast.parse(code) raises SyntaxError e: `e.lineno - 1 if e.lineno else 0`, the
-                        0-based offset, inside the assembled statement, of the line Python blames (0 when the
+     py_stmt_errline code   when ast.parse(code) raises SyntaxError e: `max(e.lineno - 1, 0) if e.lineno else 0`,
+                        the 0-based offset of the line Python blames in the text it was given (0 when the
                         error carries no line: null bytes, or Python's parser gave up); only consulted when
-                        py_stmt_ok code = false.  core.py adds it to the index of the `~` line, unclamped.
+                        py_stmt_ok code = false.  It can exceed the number of lines the compiler counts (CPython
+                        takes a bare carriage return for a line break): core.py clamps it to the lines the
+                        statement consumed before adding it to the index of the `~` line (fix F14c).
      py_call_shape args ast.parse("_temp_(" ++ args ++ ")") : number of positional arguments and
                         the keyword names ("**" for a **kwargs entry, and "*" added when a starred positional
                         argument is present; the names in the order written, a repeated keyword occurs as
